@@ -66,7 +66,9 @@ fn main() {
     let args: Vec<String> = std::env::args().collect();
     let mode = args.get(1).map(|s| s.as_str()).unwrap_or("");
     // silence the default panic output: panics are captured and reported as answers
-    std::panic::set_hook(Box::new(|_| {}));
+    if std::env::var_os("VH_PANIC").is_none() {
+        std::panic::set_hook(Box::new(|_| {}));
+    }
     match mode {
         "geom" => println!("{} {}", llfree::HUGE_ORDER, llfree::TREE_HUGE),
         // execute request lines from a file on the real allocator
